@@ -51,7 +51,12 @@ RULE = (
     "mutation of the JSON document — ineffective ones count as pristine — (unknown class_module / class name, dropped or extra key, rule_class swapped, "
     "changed idx, reversed path, permuted rules, rules of empty classes removed so that get_rule re-adds them, renamed order key, permuted classes array). For every case the "
     "model and the implementation are compared on to_jsonable() (structurally), from_dict(J) (descriptor of the "
-    "result or 'raised') and __eq__ in both directions. Non-trivial: specification with >= 4 rules, a rule that is "
+    "result or 'raised'), __eq__ in both directions (not for bijections, which define no __eq__), and on the VERDICT "
+    "BITS: run_c18 decides the hypotheses of the round-trip theorem of the case's kind on the descriptor it receives "
+    "(strat_ok; rule_ok + rule_strats_ok; pack_ok; the 4 conjuncts of spec_wf; the 11 conjuncts of bij_wf) and appends "
+    "them to its output, the plugin recomputes them in Python from the same encoded data (rule_ok is not recomputed: "
+    "expected constant 1) and appends them to the implementation-side output, so the two verdicts are diffed on every "
+    "case; extra_checks counts `covered_by_theorem <theorem>: k of n` per kind. Non-trivial: specification with >= 4 rules, a rule that is "
     "not a plain Rule/VerificationRule, a strategy with settings, a pack with >= 3 strategies, or a bijection. "
     "SEVERAL ROUND TRIPS PER CASE IN ONE PROCESS: when a case has an `other` object (70% of the strategy cases - mostly "
     "another configuration of the same class -, 60% of the packs, a quarter of the specifications and rules) that object "
@@ -70,10 +75,14 @@ LEVEL_TEXT = (
     "behaviour: from_dict(to_jsonable(x)) reproduces x structurally up to the instance attribute __orig_class__ "
     "(same form, same nested original rules, same idx, same strategies and classes, same classes in the same order "
     "with the same rule each) for strategies, all five rule forms arbitrarily nested, packs and specifications; the "
-    "result is == x in both directions and identical to x when no strategy instance carries __orig_class__. Every "
+    "result is == x in both directions (under the further hypotheses strat_dict_ok / pack_dicts_ok / spec_dicts_ok: "
+    "distinct setting keys and no instance attribute but __orig_class__ added) and identical to x when no strategy "
+    "instance carries __orig_class__. Every "
     "specification the constructor (group_equiv=False) builds from rules that went through their constructors "
     "satisfies the hypotheses, lazily added empty rules included, and the constructor adds only plainly created "
-    "strategies. Bijections: both specifications reproduced and every entry of the order map / index data preserved "
+    "strategies. Bijections, UNDER bij_wf (spec_wf of both specifications, distinct keys in the order map and in the "
+    "index data, every key of the index data is a key of the order map): both specifications reproduced and every "
+    "entry of the order map / index data preserved "
     "through the classes array and the decimal object keys (int(f'{n}') = n proved). Strategy equality is a function "
     "of kind (class) and settings (flags + further settings) only — how the instance was created is irrelevant. "
     "SAME ENUMERATION (C18_roundtrip_same_enumeration, connected to C01's evaluation model Spec/Eval.v): for ANY type "
@@ -86,7 +95,22 @@ LEVEL_TEXT = (
     "__orig_class__ (get_equation, formal_step ..) has the same value class by class "
     "(C18_roundtrip_same_rule_observables). Applied examples also cover a StrategyFactory class (no flags written) and "
     "the AtomStrategy, alone, in a pack with two configurations of the factory, in a rule and in a specification. "
-    "The hand-written model is tied to the code by comparing to_jsonable, from_dict and == on real objects."
+    "The hand-written model is tied to the code by comparing to_jsonable, from_dict and == on real objects. "
+    "HYPOTHESES DECIDED PER CASE (Json/Deciders.v; soundness `decider = true -> hypothesis`: C18_strat_ok_decided, "
+    "C18_rule_strats_ok_decided, C18_pack_ok_decided, C18_spec_wf_decided, C18_bij_wf_decided; the theorems with the "
+    "hypothesis replaced by its decider: C18_spec_roundtrip_decided, C18_bijection_roundtrip_decided; soundness of the "
+    "bits run_c18 PRINTS at exactly the instantiation of the user-code variables run_c18 uses: "
+    "C18_run_bij_verdict_sound, C18_run_spec_verdict_sound, C18_run_small_verdicts_sound). A round-trip theorem is "
+    "claimed for a compared case only when all bits of its kind are 1. MEASURED (quick tier, all cases with an "
+    "object): bij_wf on 309 of 309 / 297 of 297 / 273 of 273 bijections (seeds 0 / 1 / 2), spec_wf on 848 of 848 / "
+    "892 of 892 / 904 of 904 specifications, rule_ok + rule_strats_ok on 304 of 304 / 280 of 280 / 301 of 301 rules, "
+    "strat_ok on 422 of 422 / 420 of 420 / 394 of 394 strategies, pack_ok on 293 of 293 / 262 of 262 / 267 of 267 "
+    "packs; extra_checks fails below 97% (bijections, specifications) / 95% (rules, strategies, packs) or when fewer "
+    "than 150 / 400 / 140 / 200 / 130 such cases occur in a full quick tier. For bijections - all of which the "
+    "library constructed and serialised itself - a 0 bit is additionally an ORACLE failure; for the other kinds it "
+    "only removes the case from the count. The two codec hypotheses of the Section (class == is Leibniz; "
+    "from_dict(to_jsonable(c)) = c for classes) are NOT per-case verdicts: in the run the first holds by "
+    "Deciders.json_eqb_spec (classes are compared as JSON documents), the second remains a contract on the class."
 )
 LEVEL_NOTE = (
     "Trusted: Coq kernel, extraction + OCaml driver, the harness (descriptor extraction from Python objects, "
@@ -103,7 +127,14 @@ LEVEL_NOTE = (
     "ParseTreeMap is not modelled here). Index data reaches no map of the five modelled rule forms "
     "(only user subclasses of the abstract NonBijectiveRule consume it): its round trip is checked by the model "
     "correspondence (document and reloaded _index_data), not by the map comparison. Nested dictionaries inside "
-    "strategy settings are generated with sorted keys (the model compares nested objects in order)."
+    "strategy settings are generated with sorted keys (the model compares nested objects in order). "
+    "Per-case verdicts: strat_ok is decided w.r.t. the MODEL'S emulation of the class's from_dict (tables: `cls()` / "
+    "`cls(**d)` with the instance defaults); the oracle evaluates the same hypothesis on the REAL code (every distinct "
+    "strategy inside the object of the case is dumped and loaded by AbstractStrategy.from_dict and must come back with "
+    "the same class, flags and settings) and FAILS when the two answers differ; rule_ok is decided "
+    "by the model only (the Python side expects 1 because the library built every generated rule through its "
+    "constructor; a 0 would show as a model/implementation mismatch); the remaining conjuncts (distinct keys, "
+    "spec_closed via the model's rule_attrs, the three order-map / index-data conjuncts) are computed on both sides."
 )
 TRUSTED = [
     "modelled, not verified: to_jsonable/from_dict/__eq__ of specification.py, strategies/rule.py, strategies/strategy.py, "
@@ -114,12 +145,17 @@ TRUSTED = [
 ]
 ASSUMPTIONS = [
     "class codec contract: from_dict(to_jsonable(c)) == c; class __eq__ is structural",
-    "strategy contract: from_dict(d) restores flags and settings that to_jsonable wrote (example.py's strategies only for default flags)",
+    "strategy contract: from_dict(d) restores flags and settings that to_jsonable wrote (example.py's strategies only for default flags); "
+    "evaluated on every compared case w.r.t. the model's emulation of from_dict (strat_okb, for every strategy of the case: "
+    "measured 1 on all strategy / pack / rule / specification / bijection cases of seeds 0-2, counted by extra_checks) AND by the oracle on "
+    "the real from_dict of every distinct strategy of the case; the oracle fails when the two answers differ",
     "decomposition_function is deterministic and independent of non-setting instance attributes",
     "C18_roundtrip_same_enumeration: the term operator of a rule (constructor, shifts, children) is a deterministic "
     "function of rule form, classes, idx and the strategies' kind + settings, and extensional in its providers",
     "round-trip theorems for specifications assume the invariants __init__ establishes: one rule per class keyed by its own class, "
-    "children of every rule present (lazily added empty rules), root present",
+    "children of every rule present (lazily added empty rules), root present - spec_wf / bij_wf, DECIDED on every kind-3 / kind-4 case "
+    "(spec_wf_bits / bij_wf_bits printed by run_c18 and recomputed in Python): measured 1 on 848/892/904 of 848/892/904 "
+    "specifications and 309/297/273 of 309/297/273 bijections (seeds 0/1/2, quick tier); a case with a 0 bit is not claimed",
 ]
 
 FLAGKEYS = ["_ignore_parent", "_inferrable", "_possibly_empty", "_workable"]
@@ -927,6 +963,208 @@ def _config_tags(J):
     return tags
 
 
+# ------------------------------------------------------------------ hypotheses of C18_bijection_roundtrip, per case
+# Python replica of Json/Deciders.v `bij_wf_bits`, evaluated on the SAME encoded data the extracted model
+# receives (res["enc"]).  run_c18 appends the 11 bits it computed to its output for every kind-4 input; impl()
+# appends the bits computed here to res["out"], so the core's diff compares the two verdicts on EVERY bijection.
+# Replicated: distinct keys, spec_closed (through the model's rule_attrs: class / children of each rule form),
+# strat_ok of every strategy inside every rule (the model's table emulation of the class's from_dict, RUN on what
+# to_jsonable writes), distinct keys of order map / index data, keys(index data) within keys(order map).
+# NOT replicated: rule_ok (= the constructors' asserts, the largest part of the model): the expected bit is the
+# constant 1, because every rule of a generated bijection was built by the library through its constructor (the
+# same convention as out[4] of the rule / specification kinds); a 0 from the model is a model/implementation
+# mismatch.
+BIJ_WF_BITS = ["spec:distinct-keys", "spec:closed", "spec:rule_ok", "spec:strategies-honour-from_dict",
+               "other:distinct-keys", "other:closed", "other:rule_ok", "other:strategies-honour-from_dict",
+               "order-map:distinct-keys", "index-data:distinct-keys", "index-data-keys-within-order-map-keys"]
+_FLAG_JSON_KEYS = ["ignore_parent", "inferrable", "possibly_empty", "workable"]
+
+
+SMALL_THMS = {0: "C18_strategy_roundtrip", 1: "C18_rule_roundtrip", 2: "C18_pack_roundtrip"}
+SMALL_BITS = {0: ["strategy-honours-from_dict"], 1: ["rule_ok", "strategies-honour-from_dict"],
+              2: ["strategies-honour-from_dict"]}
+
+
+def _distinct(keys):
+    return int(all(k not in keys[i + 1:] for i, k in enumerate(keys)))
+
+
+def _w_is_empty(tabs, c):
+    for d, b in tabs[1]:
+        if d == c:
+            return bool(b)
+    return False
+
+
+def _w_attrs(tabs, r):
+    """Json/Model.v rule_attrs on an encoded rule: (strategy, class, children) or None"""
+    f = r[0]
+    if f in (0, 1):
+        return (r[1], r[2], list(r[3]))
+    if f == 2:
+        a = _w_attrs(tabs, r[1])
+        if a is None:
+            return None
+        ne = [c for c in a[2] if not _w_is_empty(tabs, c)]
+        return (a[0], a[1], [ne[0]]) if ne else None
+    if f == 3:
+        l = [_w_attrs(tabs, x) for x in r[1]]
+        if not l or l[0] is None or l[-1] is None:
+            return None
+        return (l[0][0], l[0][1], l[-1][2])
+    if f == 4:
+        a = _w_attrs(tabs, r[1])
+        if a is None:
+            return None
+        ch, idx = a[2], r[2]
+        if not -len(ch) <= idx < len(ch):
+            return None
+        return (a[0], ch[idx], [a[1]] + ch[:idx] + ch[idx + 1:])
+    return None
+
+
+def _w_user_from_dict(tabs, m, n, d):
+    """Json/Run.v i_user_from_dict: None = Err, else (flags, user)"""
+    ent = next((e for e in tabs[2] if e[0] == m and e[1] == n), None)
+    if ent is None:
+        return None
+    cat, mode, df, du = ent[2], ent[3], ent[4], ent[5][1]
+    if len(df) != 4:
+        df = None
+    if mode == 0:
+        return (df, du)
+    allowed = ([codes(k) for k in _FLAG_JSON_KEYS] if cat == 0 else [codes("ignore_parent")] if cat == 1 else []) + \
+        [kv[0] for kv in du]
+    if any(kv[0] not in allowed for kv in d):
+        return None
+
+    def get(k):
+        return next((kv[1] for kv in d if kv[0] == k), None)
+
+    f = df
+    if df is not None and cat in (0, 1):
+        f = list(df)
+        for i, k in enumerate(_FLAG_JSON_KEYS if cat == 0 else _FLAG_JSON_KEYS[:1]):
+            v = get(codes(k))
+            if v is not None:
+                if v[0] != 1:
+                    return None
+                f[i] = int(v[1] != 0)
+    return (f, [[kv[0], kv[1] if get(kv[0]) is None else get(kv[0])] for kv in du])
+
+
+def _w_strat_ok(tabs, s):
+    """Json/Deciders.v strat_okb"""
+    m, n, user = s[0], s[1], s[3][1]
+    flags = [int(bool(x)) for x in s[2]] if len(s[2]) == 4 else None
+    ent = next((e for e in tabs[2] if e[0] == m and e[1] == n), None)
+    if ent is None or ent[2] not in (0, 1, 2, 3, 4):
+        return False
+    cat = ent[2]
+    if cat in (2, 3):
+        return flags == [1, 0, 0, 0] and user == []
+    base = []
+    if flags is not None and cat == 0:
+        base = [[codes(k), [1, flags[i]]] for i, k in enumerate(_FLAG_JSON_KEYS)]
+    elif flags is not None and cat == 1:
+        base = [[codes("ignore_parent"), [1, flags[0]]]]
+    r = _w_user_from_dict(tabs, m, n, base + user)
+    if r is None:
+        return False
+    f = None if r[0] is None else [int(bool(x)) for x in r[0]]
+    return f == flags and r[1] == user
+
+
+def _w_rule_strats_ok(tabs, r):
+    f = r[0]
+    if f in (0, 1):
+        return _w_strat_ok(tabs, r[1])
+    if f in (2, 4):
+        return _w_rule_strats_ok(tabs, r[1])
+    if f == 3:
+        return all(_w_rule_strats_ok(tabs, x) for x in r[1])
+    return True
+
+
+def _w_spec_bits(tabs, sp):
+    root, rules = sp
+    keys = [kr[0] for kr in rules]
+    closed = root in keys
+    for k, r in rules:
+        a = _w_attrs(tabs, r)
+        closed = closed and a is not None and a[1] == k and all(c in keys for c in a[2])
+    return [_distinct(keys), int(closed), 1, int(all(_w_rule_strats_ok(tabs, r) for _, r in rules))]
+
+
+def _bij_wf_bits(enc):
+    tabs, d = enc[0], enc[2]
+    okeys = [[e[0], e[1]] for e in d[2]]
+    dkeys = [[e[0], e[1]] for e in d[3]]
+    return _w_spec_bits(tabs, d[0]) + _w_spec_bits(tabs, d[1]) + \
+        [_distinct(okeys), _distinct(dkeys), int(all(k in okeys for k in dkeys))]
+
+
+def _wf_failing(bits):
+    return [BIJ_WF_BITS[i] for i, b in enumerate(bits) if not b]
+
+
+# strat_ok is decided by the model w.r.t. its EMULATION of the classes' from_dict (tables).  The same hypothesis is
+# evaluated here on the REAL code: every distinct strategy instance inside the object of the case is dumped and loaded
+# by the library (AbstractStrategy.from_dict) and must come back with the same class, flags and settings.  The oracle
+# requires the two answers to agree on every case (so "strat_okb = 1" is also a statement about the real from_dict).
+def _strategies_of(kind, x):
+    from comb_spec_searcher.strategies.rule import EquivalencePathRule, EquivalenceRule, ReverseRule
+
+    acc = []
+
+    def walk(r):
+        if type(r) is EquivalencePathRule:
+            for q in r.rules:
+                walk(q)
+        elif type(r) in (EquivalenceRule, ReverseRule):
+            walk(r.original_rule)
+        else:
+            acc.append(r.strategy)
+
+    if kind == "strategy":
+        acc.append(x)
+    elif kind == "pack":
+        for grp in [x.initial_strats, x.inferral_strats, x.ver_strats, x.symmetries] + list(x.expansion_strats):
+            acc.extend(grp)
+    elif kind == "rule":
+        walk(x)
+    elif kind == "bij":
+        for sp in (x._spec, x._other):
+            for r in sp.rules_dict.values():
+                walk(r)
+    else:
+        for r in x.rules_dict.values():
+            walk(r)
+    return acc
+
+
+def _real_contract(kind, x):
+    """[number of distinct strategies checked, descriptions of those the real from_dict does not restore]"""
+    from comb_spec_searcher.strategies.strategy import AbstractStrategy
+
+    seen, bad = set(), []
+    for st in _strategies_of(kind, x):
+        d = Ctx().strat(st, strip=True)
+        k = json.dumps(d)
+        if k in seen:
+            continue
+        seen.add(k)
+        try:
+            z = AbstractStrategy.from_dict(jcopy(st.to_jsonable()))
+            ok = type(z) is type(st) and Ctx().strat(z, strip=True) == d
+        except Exception as ex:  # pylint: disable=broad-except
+            ok = False
+            z = "raised %s" % type(ex).__name__
+        if not ok:
+            bad.append("%r -> %r" % (st, z))
+    return [len(seen), bad[:3]]
+
+
 def impl(case):
     b = build(case)
     kind, x, y, J = b["kind"], b["x"], b["y"], b["J"]
@@ -937,6 +1175,31 @@ def impl(case):
         res["enc"] = _encode_from(b)
     except Exception:  # pylint: disable=broad-except
         res["enc"] = [[[], [], [], [], [], []], 8, [], [], []]
+    if res["enc"][1] == 4:
+        # the per-case verdict on bij_wf (hypothesis of C18_bijection_roundtrip), diffed against the extracted one
+        res["wf"] = _bij_wf_bits(res["enc"])
+        res["out"].append(list(res["wf"]))
+        res["tags"].append("thm:C18_bijection_roundtrip:covered" if all(res["wf"]) else
+                           "thm:C18_bijection_roundtrip:not_covered(%s)" % ",".join(_wf_failing(res["wf"])))
+    elif res["enc"][1] in (0, 1, 2):
+        # ... and on strat_ok / rule_ok + rule_strats_ok / pack_ok (C18_strategy_ / C18_rule_ / C18_pack_roundtrip)
+        tabs, d, k = res["enc"][0], res["enc"][2], res["enc"][1]
+        if k == 0:
+            res["wfk"] = [int(_w_strat_ok(tabs, d))]
+        elif k == 1:
+            res["wfk"] = [1, int(_w_rule_strats_ok(tabs, d))]      # rule_ok: constant, as out[4]
+        else:
+            res["wfk"] = [int(all(_w_strat_ok(tabs, st) for grp in [d[1], d[2], d[3], d[5]] + list(d[4]) for st in grp))]
+        res["out"].append(list(res["wfk"]))
+        thm = SMALL_THMS[k]
+        res["tags"].append("thm:%s:covered" % thm if all(res["wfk"]) else
+                           "thm:%s:not_covered(%s)" % (thm, ",".join(SMALL_BITS[k][i] for i, b in enumerate(res["wfk"]) if not b)))
+    elif res["enc"][1] == 3:
+        # ... and on spec_wf (hypothesis of C18_spec_roundtrip, C18_roundtrip_same_enumeration, ..): 4 bits
+        res["wfs"] = _w_spec_bits(res["enc"][0], res["enc"][2])
+        res["out"].append(list(res["wfs"]))
+        res["tags"].append("thm:C18_spec_roundtrip:covered" if all(res["wfs"]) else
+                           "thm:C18_spec_roundtrip:not_covered(%s)" % ",".join(_wf_failing(res["wfs"])))
     return res
 
 
@@ -1030,6 +1293,8 @@ def _impl_from(b, case):
                                [repr(q.strategy) for q in getattr(r, "rules", [])]) for c, r in sp.rules_dict.items())
 
             obs["other_same"] = bool(fp(x) == fp(y) and _ck(x.root) == _ck(y.root))
+    # last, so that the extra from_dict calls cannot influence any observation above
+    obs["real_contract"] = _attempt(lambda: _real_contract(kind, x))
     return {"out": out, "tags": tags, "obs": obs, "loaded_keys": list(J) if isinstance(J, dict) else []}
 
 
@@ -1073,6 +1338,19 @@ def oracle(case, res):
                 return "a pack loaded without its symmetries is == the original (%r)" % (obs["eq"],)
             if "iterative" not in J and p["iterative"] and obs["eq"] != [False, False]:
                 return "an iterative pack loaded without the iterative flag is == the original (%r)" % (obs["eq"],)
+    rc = obs.get("real_contract")
+    if rc is not None:
+        if not isinstance(rc, list):
+            return "evaluating the strategy contract on the real from_dict failed: %r" % (rc,)
+        decided = _strats_bit(res)
+        if decided is not None and bool(decided) != (not rc[1]):
+            return ("the model's emulation of from_dict says the strategies of this case %s the from_dict contract "
+                    "(strat_okb), the real from_dict says the opposite: %r" % ("honour" if decided else "violate", rc[1]))
+    if kind == "bij" and res.get("wf") is not None and not all(res["wf"]):
+        # every generated bijection was constructed and serialised by the library itself (Bijection.construct /
+        # ParallelSpecFinder): bij_wf must hold of it
+        return "bij_wf (hypothesis of C18_bijection_roundtrip) fails on a bijection the library constructed: %s" % (
+            ", ".join(_wf_failing(res["wf"])),)
     if case.get("other") and "other_eq" in obs:
         if kind == "strategy":
             want = _effective(case["s"]) == _effective(case["other"])
@@ -1107,6 +1385,64 @@ def key(case):
 
 def classify(case, res):
     return list(res.get("tags") or ["crashed"])
+
+
+# theorem, field of res, names of the bits, kind label, required fraction, required number of cases (quick tier)
+# (fractions measured on seeds 0, 1, 2 - see LEVEL_TEXT - minus a margin)
+COVER = [
+    ("C18_bijection_roundtrip", "wf", "bij_wfb", "kind-4 (bijection)", 0.97, 150),
+    ("C18_spec_roundtrip", "wfs", "spec_wfb", "kind-3 (specification)", 0.97, 400),
+    ("C18_rule_roundtrip", "wfk1", "rule_ok && rule_strats_okb", "kind-1 (rule)", 0.95, 140),
+    ("C18_strategy_roundtrip", "wfk0", "strat_okb", "kind-0 (strategy)", 0.95, 200),
+    ("C18_pack_roundtrip", "wfk2", "pack_okb", "kind-2 (pack)", 0.95, 130),
+]
+
+
+def _strats_bit(res):
+    """the `every strategy of the case honours from_dict` conjunct of the verdict, whatever the kind"""
+    if res.get("wf") is not None:
+        return int(res["wf"][3] and res["wf"][7])
+    if res.get("wfs") is not None:
+        return res["wfs"][3]
+    if res.get("wfk") is not None:
+        return res["wfk"][-1]
+    return None
+
+
+def _bits_of(res, field):
+    if field.startswith("wfk"):
+        if res.get("wfk") is None or not res.get("enc") or res["enc"][1] != int(field[3]):
+            return None
+        return res["wfk"]
+    return res.get(field)
+
+
+def extra_checks(ctx):
+    """On how many of the compared cases do the hypotheses of the round-trip theorem of their kind hold, as decided
+    by the extracted model (Json/Deciders.v) AND by the Python replica - the core diffs the two on every case.
+    A case where they fail is outside the theorem, not an error (except for bijections: see oracle)."""
+    checks = []
+    for thm, field, dec, label, frac, mincases in COVER:
+        n = k = 0
+        missing = {}
+        for res, _why, _nt in ctx.impl_res:
+            bits = _bits_of(res, field) if isinstance(res, dict) else None
+            if bits is None:
+                continue
+            n += 1
+            if all(bits):
+                k += 1
+            else:
+                for t in res.get("tags", []):
+                    if t.startswith("thm:%s:not_covered" % thm):
+                        missing[t[len("thm:%s:" % thm):]] = missing.get(t[len("thm:%s:" % thm):], 0) + 1
+        need = mincases if len(ctx.cases) >= 2000 else 0
+        ok = n >= need and (n == 0 or k >= frac * n)
+        detail = "%s = 1 (decided by run_c18 and by the Python replica, diffed per case) on %d of %d %s cases " \
+                 "(required: >= %d cases, >= %d%%)%s" % (dec, k, n, label, need, int(frac * 100),
+                                                          "; %r" % missing if missing else "")
+        checks.append(("covered_by_theorem %s: %d of %d %s cases" % (thm, k, n, label.split()[0]), ok, detail))
+    return checks
 
 
 # ------------------------------------------------------------------ generator
